@@ -111,6 +111,15 @@ class Source:
             j += 1
         return self._with_attrs(start), start, j + 1
 
+    def find_macro(self, name):
+        rx = r"macro_rules!\s+%s\s*\{" % re.escape(name)
+        ms = find_code(self.text, self.mask, rx)
+        if len(ms) != 1:
+            raise Undecided("lost anchor: macro %s found %d times in %s" % (name, len(ms), self.relpath))
+        start = ms[0].start()
+        end = match_close(self.text, self.mask, ms[0].end() - 1) + 1
+        return self._with_attrs(start), start, end
+
     def find_const(self, name):
         rx = r"(?:pub(?:\([^)]*\))?\s+)?const\s+%s\s*:" % re.escape(name)
         ms = find_code(self.text, self.mask, rx)
@@ -321,6 +330,14 @@ class Extraction:
         rec["sha256_emitted"] = sha256_text(t)
         return t
 
+    def extract_macro(self, file, name):
+        s = self.src(file)
+        a, st, end = s.find_macro(name)
+        raw = s.text[st:end]
+        rec = self.new_rec(file, "macro %s" % name, raw)
+        rec["sha256_emitted"] = sha256_text(raw)
+        return raw
+
     def extract_const(self, file, name):
         s = self.src(file)
         a, st, end = s.find_const(name)
@@ -330,7 +347,8 @@ class Extraction:
         rec["sha256_emitted"] = sha256_text(t)
         return t
 
-    def extract_fn(self, file, path, contract_lines, ret=None, trait=None, external_body=False):
+    def extract_fn(self, file, path, contract_lines, ret=None, trait=None, external_body=False,
+                   loop_specs=None, loop_iters=None, ghost=None):
         s = self.src(file)
         a, st, body_open, end = s.find_fn(path, trait, self.features)
         raw = s.text[a:end]
@@ -348,13 +366,15 @@ class Extraction:
             sig_c = sig_c.strip()[:m.start()] + "-> (%s: %s) %s" % (ret, rty, m.group(2) or "")
             rec["named_result"] = "%s: %s" % (ret, rty)
         contract = "\n".join("        " + l for l in contract_lines)
+        rec["sha256_emitted_body"] = sha256_text(body_c)
+        if loop_specs or loop_iters or ghost:
+            body_c = splice_proof_text(body_c, loop_specs or {}, loop_iters or {}, ghost or [], path, rec)
         attrs = pre.strip("\n")
         ext = "    #[verifier::external_body]\n" if external_body else ""
         if external_body:
             rec["external_body"] = True
         text = ((attrs + "\n") if attrs.strip() else "") + ext + "    " + sig_c.strip() + "\n" + contract + "\n    " + body_c.strip() + "\n"
         rec["contract_lines"] = len(contract_lines)
-        rec["sha256_emitted_body"] = sha256_text(body_c)
         rec["body_verbatim"] = (body_c == re.sub(r"\bpub\((?:crate|super|in [a-z:]+)\)", "pub", body)) or \
             (rec["dropped_doc_lines"] + rec["dropped_cfg_false_lines"] + len(rec["dropped_attrs"]) + len(rec["cfg_evaluated"]) > 0)
         return text
@@ -364,6 +384,93 @@ class Extraction:
         h = s.impl_header(type_name, trait)
         rec = self.new_rec(file, "impl header %s" % type_name, h)
         return h
+
+
+GHOST_OK = re.compile(r"^\s*(proof\s*\{|assert\b|assert_|let\s+ghost\b|broadcast\s+use\b|reveal|//|\}|$)")
+
+
+def find_loops(body):
+    """[(keyword_start, keyword, brace_open)] for every for / while / loop in `body`, in source order."""
+    mask = code_mask(body)
+    out = []
+    for m in re.finditer(r"\b(for|while|loop)\b", body):
+        if not mask[m.start()]:
+            continue
+        if m.group(1) == "for" and body[m.end():m.end() + 1] == "<":
+            continue  # for<'a> higher-ranked bound
+        j, pd = m.end(), 0
+        while j < len(body):
+            if mask[j]:
+                ch = body[j]
+                if ch in "([":
+                    pd += 1
+                elif ch in ")]":
+                    pd -= 1
+                elif ch == "{" and pd == 0:
+                    break
+                elif ch == ";" and pd == 0:
+                    j = -1
+                    break
+            j += 1
+        if j < 0 or j >= len(body):
+            continue
+        out.append((m.start(), m.group(1), j))
+    return out
+
+
+def splice_proof_text(body, loop_specs, loop_iters, ghost, path, rec):
+    """Insert verifier-only text into a cleaned, otherwise verbatim function body:
+       loop_specs {n: [lines]}  -> invariant / decreases clauses between the header of the n-th loop and its `{`;
+       loop_iters {n: name}     -> `for PAT in EXPR` becomes `for PAT in name: EXPR` (Verus' syntax for naming the ghost
+                                   iterator; the executed loop is unchanged);
+       ghost [(where, anchor, [lines])] -> proof blocks / assertions before or after the line holding `anchor`.
+       Anything that is not ghost text, a lost loop ordinal or a lost / ambiguous anchor is Undecided."""
+    loops = find_loops(body)
+    edits = []  # (position, text)
+    for n, lines in loop_specs.items():
+        if n < 1 or n > len(loops):
+            raise Undecided("lost anchor: fn %s has %d loops, loop %d has a specification" % (path, len(loops), n))
+        edits.append((loops[n - 1][2], "\n" + "\n".join("            " + l for l in lines) + "\n        "))
+    for n, name in loop_iters.items():
+        if n < 1 or n > len(loops) or loops[n - 1][1] != "for":
+            raise Undecided("lost anchor: fn %s loop %d is not a for loop" % (path, n))
+        ks, _kw, bo = loops[n - 1]
+        mask = code_mask(body)
+        m = None
+        for mm in re.finditer(r"\bin\b\s+", body[ks:bo]):
+            if mask[ks + mm.start()]:
+                m = mm
+                break
+        if not m:
+            raise Undecided("lost anchor: fn %s loop %d has no `in`" % (path, n))
+        edits.append((ks + m.end(), "%s: " % name))
+    for where, anchor, lines in ghost:
+        for l in lines:
+            if not GHOST_OK.match(l) and not l.startswith("    "):
+                raise Undecided("ghost text for fn %s is not a proof block / assertion: %r" % (path, l))
+        block = "\n".join("        " + l for l in lines)
+        if where == "start":
+            o = body.find("{")
+            edits.append((o + 1, "\n" + block))
+            continue
+        cnt = body.count(anchor)
+        if cnt != 1:
+            raise Undecided("lost anchor: %r occurs %d times in fn %s" % (anchor, cnt, path))
+        a = body.find(anchor)
+        if where == "before":
+            ls = body.rfind("\n", 0, a) + 1
+            edits.append((ls, block + "\n"))
+        else:
+            le = body.find("\n", a + len(anchor))
+            le = len(body) if le < 0 else le
+            edits.append((le, "\n" + block))
+    # all positions refer to the unmodified body: apply from the back
+    for pos, text in sorted(edits, key=lambda e: -e[0]):
+        body = body[:pos] + text + body[pos:]
+    rec["spliced_loop_specs"] = sorted(loop_specs)
+    rec["named_ghost_iterators"] = ["loop %d: %s" % (n, v) for n, v in sorted(loop_iters.items())]
+    rec["spliced_ghost_blocks"] = len(ghost)
+    return body
 
 
 def _pub_fields_body(body, rec):
@@ -387,6 +494,9 @@ def _pub_fields_body(body, rec):
 
 DIRECTIVE = re.compile(r"^\s*//@\s*(extract|implhdr)\s+(.*)$")
 CONT = re.compile(r"^\s*//@\s*\|(.*)$")
+LOOPSPEC = re.compile(r"^\s*//@\s*L(\d+)\|(.*)$")
+GHOSTHDR = re.compile(r"^\s*//@\s*@(before|after|start)\s*(?:`(.*)`)?\s*$")
+GHOSTLINE = re.compile(r"^\s*//@\s*\+(.*)$")
 
 
 def generate(template_path, out_path, features=None):
@@ -413,9 +523,24 @@ def generate(template_path, out_path, features=None):
             else:
                 args[tok] = True
         contract = []
+        loop_specs, ghost = {}, []
         i += 1
-        while i < len(tlines) and CONT.match(tlines[i]):
-            contract.append(CONT.match(tlines[i]).group(1).rstrip())
+        while i < len(tlines):
+            t = tlines[i]
+            if CONT.match(t):
+                contract.append(CONT.match(t).group(1).rstrip())
+            elif LOOPSPEC.match(t):
+                mm = LOOPSPEC.match(t)
+                loop_specs.setdefault(int(mm.group(1)), []).append(mm.group(2).rstrip())
+            elif GHOSTHDR.match(t):
+                mm = GHOSTHDR.match(t)
+                ghost.append((mm.group(1), mm.group(2), []))
+            elif GHOSTLINE.match(t):
+                if not ghost:
+                    raise Undecided("stray ghost line in %s:%d" % (template_path, i + 1))
+                ghost[-1][2].append(GHOSTLINE.match(t).group(1).rstrip())
+            else:
+                break
             i += 1
         file = args.get("file")
         item = args.get("item", "")
@@ -430,9 +555,13 @@ def generate(template_path, out_path, features=None):
             out.append(ex.extract_type_alias(file, name))
         elif k == "const":
             out.append(ex.extract_const(file, name))
+        elif k == "macro":
+            out.append(ex.extract_macro(file, name))
         elif k == "fn":
+            loop_iters = {int(k[4:]): v for k, v in args.items() if re.fullmatch(r"iter\d+", k)}
             out.append(ex.extract_fn(file, name, contract, ret=args.get("ret"), trait=args.get("trait"),
-                                     external_body=bool(args.get("external_body"))))
+                                     external_body=bool(args.get("external_body")),
+                                     loop_specs=loop_specs, loop_iters=loop_iters, ghost=ghost))
         else:
             raise Undecided("unknown extract kind %r" % item)
     text = "\n".join(out)
